@@ -191,6 +191,24 @@ func fillColor(r *rand.Rand, m *image.NRGBA, class string) {
 				}
 			}
 		}
+	case class == "multiband":
+		// (not in Classes; used by targeted families) several flat horizontal bands of different
+		// colours between noise: many near-identical entropy tiles per band, so histogram clusters
+		// compete for the same tiles in the encoder's remap pass.
+		bh := 3 + r.Intn(10)
+		var flat color.NRGBA
+		for y := 0; y < h; y++ {
+			if y%bh == 0 {
+				flat = color.NRGBA{uint8(r.Intn(256)), uint8(r.Intn(256)), uint8(r.Intn(256)), 255}
+			}
+			for x := 0; x < w; x++ {
+				if (y/bh)%2 == 1 {
+					set(x, y, flat)
+				} else {
+					set(x, y, color.NRGBA{uint8(r.Intn(256)), uint8(r.Intn(256)), uint8(r.Intn(256)), 255})
+				}
+			}
+		}
 	default: // photo-like: smooth low-frequency field + mild texture
 		fx, fy := 0.02+r.Float64()*0.2, 0.02+r.Float64()*0.2
 		ph := r.Float64() * 6
